@@ -297,3 +297,46 @@ func VH_C04_T1_two_writers() {
 	s.checkAll("after-restart")
 	s.close()
 }
+
+var gcCancelPoints = []string{"gc:start", "gc:before-newest-check", "gc:dst-switch", "gc:before-copy", "gc:after-copy", "gc:before-repoint", "gc:before-hint", "gc:before-clear", "gc:after-clear", "gc:after-nextgc"}
+
+// C05-T4: CancelGC arriving at any control point of a pass whose destination is an earlier short
+// file and whose sources are mostly live, so that the destination fills up in the middle of a
+// source file and the pass goes on rewriting that source in place ("gc:dst-switch"): whenever
+// the cancel lands, when the pass has ended every key holds its last acknowledged write, also
+// after a restart with all or no index files.
+func VH_C05_T4_cancel() {
+	s := newScen(768, false, "ka", "kb", "kc", "kd", "ke", "kf", "kg")
+	s.setS("ka") // file0, left short (1 or 2 records) by the restart below
+	if vrt.Bool("two-in-file0") {
+		s.setS("kg")
+	}
+	s.reopen(0)
+	s.setS("kb")
+	s.setS("kc")
+	s.setS("kd") // file1: all live
+	s.setS("ke")
+	s.setS("kf")
+	if vrt.Bool("file2-has-garbage") {
+		s.setS("ka") // supersedes ka@0
+	} else {
+		s.setS("kg")
+	} // file2
+	s.setS("kg") // file3 = head
+	s.flush()
+	point := gcCancelPoints[vrt.Choice("point", len(gcCancelPoints))]
+	occ := vrt.Choice("occurrence", 6)
+	withWrite := vrt.Tier() > 0 && vrt.Bool("client-write-with-cancel")
+	done := atPoint(point, occ, func() {
+		s.st.CancelGC(0)
+		if withWrite {
+			s.setS("kc")
+		}
+	})
+	s.st.gcMgr.gc(s.bkt(), 1, 2, vrt.Bool("merge")) // a cancelled pass may legitimately end early
+	vrt.Assume(done())
+	s.checkAll("after-cancelled-gc")
+	s.reopen(vrt.Choice("rm", 2) * 7)
+	s.checkAll("after-cancelled-gc-restart")
+	s.close()
+}
